@@ -120,7 +120,7 @@ type SugarDB struct {
 	rewriteAOFInProgress       atomic.Bool      // Atomic boolean that's true when actively rewriting AOF file is in progress.
 	stateCopyInProgress        atomic.Bool      // Atomic boolean that's true when actively copying state for snapshotting or preamble generation.
 	stateMutations             atomic.Int32     // Number of write commands currently mutating the state (and logging the mutation).
-	writeCommit                sync.Mutex       // Serialises write commands in standalone mode: a command takes effect and is logged as one unit.
+	writeCommit                verifhook.Mutex  // Serialises write commands in standalone mode: a command takes effect and is logged as one unit.
 	latestSnapshotMilliseconds atomic.Int64     // Unix epoch in milliseconds.
 	snapshotEngine             *snapshot.Engine // Snapshot engine for standalone mode.
 	aofEngine                  *aof.Engine      // AOF engine for standalone mode.
@@ -200,6 +200,7 @@ func NewSugarDB(options ...func(sugarDB *SugarDB)) (*SugarDB, error) {
 
 	verifhook.NameLock(sugarDB.connInfo.mut, "conninfo")
 	verifhook.NameLock(sugarDB.storeLock, "store")
+	verifhook.NameLock(&sugarDB.writeCommit, "write")
 
 	for _, option := range options {
 		option(sugarDB)
